@@ -32,9 +32,12 @@ META = {
 
 def shards(tier):
     out = [{"label": "partition", "kind": "partition"}, {"label": "insitu", "kind": "insitu", "n": 400}]
+    if tier == "quick":
+        out += [{"label": "repotests", "kind": "repotests"}]
     if tier == "thorough":
         out += [{"label": "random%d" % i, "kind": "random", "n": 250000} for i in range(4)]
         out += [{"label": "insitu%d" % i, "kind": "insitu", "n": 4000} for i in range(2)]
+        out += [{"label": "repotests", "kind": "repotests", "timeout_s": 3600}]
     return out
 
 
@@ -148,6 +151,10 @@ def run_shard(ctx):
         ctx.sample({"fit_dtype": [mx, mn], "returned": str(fit(mx, mn))})
     elif kind == "insitu":
         insitu(ctx, ctx.shard["n"])
+    elif kind == "repotests":
+        from .. import repotests
+
+        repotests.run(ctx, "C19")
 
 
 def insitu(ctx, n):
